@@ -1,7 +1,7 @@
 (* C15 - A remote doer is used only after a version match; deployment needs consent.
    This file contains only statements, each closed by [exact], and their assumption audit. *)
-From RJ Require Import Base.Prelude Model.KeyHex Model.Handshake Model.Launch
-  Proofs.KeyHexProofs Proofs.HandshakeProofs Proofs.LaunchProofs Gen.Facts.
+From RJ Require Import Base.Prelude Model.KeyHex Model.Handshake Model.Launch Model.LaunchSystem
+  Proofs.KeyHexProofs Proofs.HandshakeProofs Proofs.LaunchProofs Proofs.LaunchSystemProofs Gen.Facts.
 From Coq Require Import String.
 Local Open Scope N_scope.
 
@@ -78,6 +78,39 @@ Theorem C15_success_only_after_match : forall c evs,
   is_success (fst (run c true evs)) -> matched_launch c evs.
 Proof. exact success_matched. Qed.
 
+(* ------------------------------------------------------------------ boss and doer composed *)
+(* The same statement without the [causal] premise: the loop composed with the doer side as a
+   transition system (Model/LaunchSystem.v: per-stream FIFO delivery, streams independent, a
+   Completed line deliverable only once the boss has written a key), for every schedule:
+     safety       the loop never returns anything but Success p (our version; exactly one key
+                  written by then, at most one before) resp. IncompatibleVersion v (another version;
+                  no key ever written);
+     no deadlock  a state in which neither stream can deliver is a state in which the loop has
+                  returned Success with one key written;
+     termination  every effective step consumes a message, so at most |stdout| + |stderr| of them. *)
+Theorem C15_system_safe : forall c v p no1 no2 ne1 ne2 rest_o rest_e sched,
+  prefixes_ok c -> p < 65536 ->
+  Forall (fun l => is_noise c l = true) no1 -> Forall (fun l => is_noise c l = true) no2 ->
+  Forall (fun l => is_noise c l = true) ne1 -> Forall (fun l => is_noise c l = true) ne2 ->
+  let y := sys_run c sched (doer_streams c v p no1 no2 ne1 ne2 rest_o rest_e) in
+  (v = own_version c ->
+     (s_res y = None /\ (s_writes y <= 1)%nat) \/ (s_res y = Some (LSuccess p O) /\ s_writes y = 1%nat)) /\
+  (v <> own_version c ->
+     s_writes y = 0%nat /\ (s_res y = None \/ s_res y = Some (LIncompat v))).
+Proof. exact system_safe. Qed.
+
+Theorem C15_system_progress : forall c v p no1 no2 ne1 ne2 rest_o rest_e sched,
+  prefixes_ok c -> p < 65536 -> v = own_version c ->
+  Forall (fun l => is_noise c l = true) no1 -> Forall (fun l => is_noise c l = true) no2 ->
+  Forall (fun l => is_noise c l = true) ne1 -> Forall (fun l => is_noise c l = true) ne2 ->
+  let y := sys_run c sched (doer_streams c v p no1 no2 ne1 ne2 rest_o rest_e) in
+  sys_stuck c y = true -> s_res y = Some (LSuccess p O) /\ s_writes y = 1%nat.
+Proof. exact system_progress. Qed.
+
+Theorem C15_system_terminates : forall c s y y',
+  sys_step c s y = Some y' -> (sys_measure y' < sys_measure y)%nat.
+Proof. exact sys_step_measure. Qed.
+
 (* ------------------------------------------------------------------ launch, deploy, retry *)
 (* An upload happens only with consent: --deploy ok / force, or the prompt answered "Deploy". *)
 Theorem C15_deploy_consent : forall b l1 l2 c1 c2 e,
@@ -153,7 +186,15 @@ Example C15_deploy_example :
     = ([ALaunch; AOsTest; APrompt], SErr).
 Proof. vm_compute. split; reflexivity. Qed.
 
+Example C15_system_example :
+  let c := impl_cfg in
+  let y := sys_run c [Stderr; Stdout; Stderr; Stdout; Stdout; Stderr; Stderr; Stdout]
+             (doer_streams c (own_version c) 40123 [] [hlit "x"%string] [hlit "motd"%string] [] [] []) in
+  s_res y = Some (LSuccess 40123 O) /\ s_writes y = 1%nat /\ sys_stuck c y = true.
+Proof. vm_compute. repeat split. Qed.
+
 Print Assumptions C15_key_roundtrip.
+Print Assumptions C15_system_safe.
 Print Assumptions C15_handshake.
 Print Assumptions C15_traffic_only_after_match.
 Print Assumptions C15_retry_once.
